@@ -172,9 +172,21 @@ def _gen_request(draws, spec, bundle, idx, profile, want_mut, tier="quick",
     req.gen = gen
     if req.variant == "validation":
         where = op.sel
-        how = rs.below(4, "invalid_how")
+        how = rs.below(5, "invalid_how")
         if how == 0:
             bad = _bad_field()
+        elif how == 4:
+            # a fragment cycle that a depth-first search only meets AFTER a
+            # fragment it has already visited: P -> S, Q, R; S -> Q; R -> P
+            from .workload import Spread
+            tn = FieldSel("__typename")
+            tn.ptype = op.root_type
+            op.fragments["CyQ"] = (op.root_type, [tn])
+            op.fragments["CyS"] = (op.root_type, [Spread("CyQ")])
+            op.fragments["CyR"] = (op.root_type, [Spread("CyP")])
+            op.fragments["CyP"] = (op.root_type, [
+                Spread("CyS"), Spread("CyQ"), Spread("CyR")])
+            bad = Spread("CyP")
         else:
             # a spread of a fragment that does not exist -- named after
             # nothing, after the operation itself, or after the other
